@@ -1,6 +1,7 @@
 INIT OInit
 NEXT ONext
 INVARIANT C23_Applied
+INVARIANT C23_Solvable
 INVARIANT C23_Eq
 INVARIANT C23_Sum
 INVARIANT C23_Ren
